@@ -101,6 +101,13 @@ def _load_expression(expression: dict) -> expressions.Expr:
         expression["kind"] = ParameterKind(expression["kind"])
     expr = cls(**expression)
 
+    # Keyword arguments reference the function they are passed to (see `ExprKeyword.function`):
+    # share the call's own function expression again, so that its names get reattached to their scope.
+    if cls is expressions.ExprCall:
+        for argument in expr.arguments:
+            if isinstance(argument, expressions.ExprKeyword):
+                argument.function = expr.function
+
     # For attributes, we need to re-attach names (`values`) together,
     # as a single linked list, from right to left:
     # in `a.b.c`, `c` links to `b` which links to `a`.
